@@ -129,7 +129,7 @@ def make_engine(net):
     import torch
     from pero_ocr.ocr_engine import transformer_ocr_engine as toe
     try:
-        d = '/verif/.cache/stubs'
+        d = os.path.join(os.path.dirname(os.path.dirname(os.path.abspath(__file__))), '.cache', 'stubs')
         os.makedirs(d, exist_ok=True)
         js = os.path.join(d, f'c20-engine-{os.getpid()}.json')
         with open(js, 'w') as f:
